@@ -15,6 +15,7 @@ type finding struct {
 }
 
 type nodeView struct {
+	covered  map[uint64][4]uint64 // entries this server compacted away below its own snapshot
 	log      map[uint64][4]uint64 // durable log
 	snapIdx  uint64               // newest durable snapshot index
 	applied  map[uint64][4]uint64 // every entry ever handed to this node's FSM: index -> entry
@@ -63,12 +64,15 @@ func holds(v *nodeView, e [4]uint64) bool {
 	if le, ok := v.log[e[0]]; ok && le == e {
 		return true
 	}
-	// covered by a durable snapshot whose content includes it: the node applied that very entry
+	// covered by a durable snapshot: what this server itself held / applied at that index decides
 	if e[0] <= v.snapIdx {
+		if ce, ok := v.covered[e[0]]; ok {
+			return ce == e
+		}
 		if ae, ok := v.applied[e[0]]; ok {
 			return ae == e
 		}
-		return true // installed snapshot: content checked by the restore/apply stream monitors
+		return true // index only known through an installed snapshot (content checked by the stream monitors)
 	}
 	return false
 }
@@ -87,7 +91,7 @@ func (c *cluster) monitor() []finding {
 	evs := c.h.snapshot()
 	views := map[uint64]*nodeView{}
 	for _, id := range c.ids {
-		views[id] = &nodeView{log: map[uint64][4]uint64{}, applied: map[uint64][4]uint64{}}
+		views[id] = &nodeView{log: map[uint64][4]uint64{}, applied: map[uint64][4]uint64{}, covered: map[uint64][4]uint64{}}
 	}
 	leadersByTerm := map[uint64]map[uint64]bool{}
 	markLeader := func(term, node uint64) {
@@ -109,6 +113,12 @@ func (c *cluster) monitor() []finding {
 	storedPayload := map[uint64]bool{}
 	lastGateCommit := map[string]uint64{}
 	followerLeader := map[uint64][2]uint64{} // node -> (leader id, term) advertised
+	deliveredBy := map[[5]uint64]uint64{}    // (receiver, idx, term, type, payload) -> sending leader
+	// diagnosis of finding F3-ii: the entry was served by a leader from at or below its own snapshot index
+	servedBelowSnapshot := func(receiver uint64, ent [4]uint64) bool {
+		l, ok := deliveredBy[[5]uint64{receiver, ent[0], ent[1], ent[2], ent[3]}]
+		return ok && views[l] != nil && views[l].snapIdx >= ent[0]
+	}
 
 	checkMatching := func(at uint64) {
 		for i := 0; i < len(c.ids); i++ {
@@ -126,7 +136,11 @@ func (c *cluster) monitor() []finding {
 						continue
 					}
 					if eb, ok := b.log[idx]; ok && eb != ea {
-						add("C04", "log-mismatch-below-common-entry", "seq %d: servers %d and %d agree at index %d but differ at %d: %v vs %v",
+						sig := "log-mismatch-below-common-entry"
+						if idx <= a.snapIdx || idx <= b.snapIdx {
+							sig += "-at-or-below-own-snapshot" // stale entries kept in the store under an installed snapshot (F3-ii)
+						}
+						add("C04", sig, "seq %d: servers %d and %d agree at index %d but differ at %d: %v vs %v",
 							at, c.ids[i], c.ids[j], top, idx, ea, eb)
 					}
 				}
@@ -175,6 +189,9 @@ func (c *cluster) monitor() []finding {
 		case "send":
 			if e.b == 3 || e.b == 4 {
 				markLeader(e.c, e.node)
+			}
+			for _, x := range e.ents {
+				deliveredBy[[5]uint64{e.a, x[0], x[1], x[2], x[3]}] = e.node
 			}
 		case "store":
 			if e.b == 1 {
@@ -252,6 +269,9 @@ func (c *cluster) monitor() []finding {
 						if g, ok := globalApplied[idx]; ok && idx > v.snapIdx && v.log[idx] == g {
 							add("C03", "committed-entry-deleted", "seq %d: server %d deletes %d..%d holding applied %v", e.seq, e.node, e.a, e.b, g)
 						}
+						if idx <= v.snapIdx {
+							v.covered[idx] = v.log[idx]
+						}
 						delete(v.log, idx)
 					}
 				}
@@ -296,7 +316,11 @@ func (c *cluster) monitor() []finding {
 			// the same entry everywhere
 			if g, ok := globalApplied[idx]; ok {
 				if g != ent {
-					add("C02", "fsm-entries-differ-across-servers", "seq %d: index %d is %v on server %d but %v on server %d", e.seq, idx, ent, e.node, g, appliedBy[idx])
+					sig := "fsm-entries-differ-across-servers"
+					if servedBelowSnapshot(e.node, ent) || servedBelowSnapshot(appliedBy[idx], g) {
+						sig += "-entry-served-from-below-leader-snapshot"
+					}
+					add("C02", sig, "seq %d: index %d is %v on server %d but %v on server %d", e.seq, idx, ent, e.node, g, appliedBy[idx])
 				}
 			} else {
 				globalApplied[idx] = ent
@@ -327,8 +351,27 @@ func (c *cluster) monitor() []finding {
 						}
 					}
 					if !ok0 || 2*cnt0 <= n0 {
-						add("C02", "uncommitted-entry-applied", "seq %d: server %d FSM given %v held durably by %d of %d voters", e.seq, e.node, ent, cnt, len(vs))
-						add("C05", "applied-without-voter-majority", "seq %d: server %d FSM given %v held durably by %d of %d voters", e.seq, e.node, ent, cnt, len(vs))
+						suffix := ""
+						if servedBelowSnapshot(e.node, ent) {
+							suffix = "-entry-served-from-below-leader-snapshot"
+						}
+						// finding F8: a configuration entry counted against the configuration it replaces
+						if ent[2] == 5 && suffix == "" {
+							if cfgP, okP := c.latestConfigIn(v.log, idx-1); okP {
+								vp := votersOf(cfgP)
+								cp := 0
+								for id := range vp {
+									if views[id] != nil && holds(views[id], ent) {
+										cp++
+									}
+								}
+								if 2*cp > len(vp) {
+									suffix = "-configuration-entry-counted-against-previous-configuration"
+								}
+							}
+						}
+						add("C02", "uncommitted-entry-applied"+suffix, "seq %d: server %d FSM given %v held durably by %d of %d voters", e.seq, e.node, ent, cnt, len(vs))
+						add("C05", "applied-without-voter-majority"+suffix, "seq %d: server %d FSM given %v held durably by %d of %d voters", e.seq, e.node, ent, cnt, len(vs))
 					}
 				}
 			}
